@@ -1848,3 +1848,88 @@ def replay(witness):
     scn.pop("_calls", None)
     fails = bool(bad) and "skip" not in bad
     return {"fails": fails, "detail": bad}
+
+
+# --- C02 / C01 at the Hexital level: closed candles of EVERY manager are final, live = batch ------------------------------
+
+
+def _mgr_snapshot(hx):
+    """{manager name: [(candle tuple, indicators, sub_indicators)]} - Hexital.get_candles() deep-copied"""
+    return {k: [(cm.candle_tuple(c), deepcopy(c.indicators), deepcopy(c.sub_indicators)) for c in cs] for k, cs in hx.get_candles().items()}
+
+
+def check_c02_hexital(scn):
+    """a Hexital (members on their own timeframes, optional Hexital timeframe / fill / Heikin-Ashi; no lifespan) fed live: at every
+    point every candle of every manager except the still-forming last bucket of a collapsing manager is already what it is after
+    any further append, and at the end equals what a Hexital constructed over the whole stream holds after one calculate()"""
+    cfg, members, stream = scn["hx"], scn["members"], scn["stream"]
+    init = scn.get("init", len(stream))
+    try:
+        batch = build_hexital(cfg, members, cm.mk_candles(stream))
+        batch.calculate()
+        ref = _mgr_snapshot(batch)
+    except Exception as e:  # the configuration fails in batch: C09's subject
+        return {"skip": f"batch raises {type(e).__name__}"}
+    snaps = []
+    try:
+        hx = build_hexital(cfg, members, cm.mk_candles(stream[:init]))
+
+        def on_step(j, consumed):
+            snaps.append((consumed, _mgr_snapshot(hx)))
+            return None
+
+        _drive(hx, scn, on_step)
+    except Exception as e:
+        return {"clause": "raised-live", "observed": repr(e)[:200], "expected": "no exception (the batch run is clean)",
+                "signature": "C02:Hexital:raised-live"}
+
+    def closed(name, cs):
+        collapsing = bool(cfg.get("tf")) if name == "default" else True
+        return cs[:-1] if collapsing and cs else cs
+
+    for a in range(len(snaps)):
+        for b in range(a + 1, len(snaps)):
+            for name, cs in snaps[a][1].items():
+                c = closed(name, cs)
+                later = snaps[b][1].get(name, [])
+                if not same(later[: len(c)], c):
+                    d = first_diff(c, later[: len(c)])
+                    return {"clause": "repaint-live", "manager": name, "at": snaps[a][0], "later": snaps[b][0], **(d or {}),
+                            "signature": "C02:Hexital:repaint-live"}
+    last = snaps[-1][1]
+    for name, cs in last.items():
+        c = closed(name, cs)
+        want = ref.get(name, [])
+        if not same(want[: len(c)], c):
+            d = first_diff(c, want[: len(c)])
+            return {"clause": "live-vs-batch", "manager": name, **(d or {}), "signature": "C02:Hexital:live-vs-batch"}
+    return None
+
+
+def case_c02_hexital(rng, idx, params):
+    scn, meta = gen_c08(rng, size=params.get("size", 40))
+    scn["check"] = "c02.hexital"
+    scn["hx"]["life"] = None
+    for m in scn["members"]:
+        m["form"] = "obj" if m["form"].startswith("settings") else m["form"]
+    if scn["init"] == len(scn["stream"]) and len(scn["stream"]) > 3:   # make sure something arrives live
+        scn["init"] = rng.randint(0, len(scn["stream"]) - 2)
+        rest = len(scn["stream"]) - scn["init"]
+        scn["chunks"] = [1] * rest if rng.random() < 0.5 else [rest // 2, rest - rest // 2]
+    bad = guard_check(check_c02_hexital)(scn)
+    skipped = bool(bad and "skip" in bad)
+    viol = None
+    if bad and not skipped:
+        small = shrink_scn(scn, lambda s: _same_sig(guard_check(check_c02_hexital)(s), bad["signature"])) if bad.get("clause") != "diverged" else scn
+        bad2 = guard_check(check_c02_hexital)(small)
+        if not bad2 or "skip" in bad2:
+            small, bad2 = scn, bad
+        viol = {"scenario": small, **bad2}
+    meta["skipped"] = skipped
+    return {"nontrivial": not skipped and bool(scn["chunks"]), "key": hash(str(scn)), "violation": viol, "meta": meta,
+            "evals": len(scn["members"]) * (1 + len(scn["chunks"])), "sample": _sample(scn) if idx < 1 else None}
+
+
+def replay_c02_hexital(w):
+    bad = guard_check(check_c02_hexital)(w["scenario"])
+    return {"fails": bool(bad) and "skip" not in bad, "detail": bad}
